@@ -38,23 +38,23 @@ CLAIMED.update({
 
 CLAIMED.update({
  "C06": ("exploration",
-   "Seeded histories of signed-zone lookups through the real DnssecDnsHandle (validator + its validation cache) with the simulated wall clock jumped forwards/backwards between lookups, RRSIG windows placed around the clock (RFC 1982 wrap included), and in-flight edits of the signed RRset, its RRSIG fields, class and TTL; oracle per lookup: Secure only if an untampered RRSIG of the genuine RRset is inside its window at the simulated now; completeness while nothing was corrupted.",
+   "Seeded histories of signed-zone lookups through the real DnssecDnsHandle (validator + its validation cache) with the simulated wall clock jumped forwards/backwards between lookups, RRSIG windows placed around the clock (RFC 1982 wrap included), and in-flight edits of the signed RRset, its RRSIG fields, class and TTL (records of another class added to the RRset included); oracle per lookup: Secure only if an untampered RRSIG of the genuine RRset is inside its window at the simulated now; completeness while nothing was corrupted.",
    "Clock is the interposed libc clock (all of hickory's time reads go through it); one validator per run; Ed25519/ECDSA/RSA fixture keys; await-point scheduling granularity.",
    "deterministic simulation: interposed wall clock with jumps/skew, signed zones served by the real authoritative code, seeded tamper plans, per-lookup truth oracle", "4 (C06)"),
  "C07": ("exploration",
-   "Seeded three-level signed hierarchies (root -> tld -> leaf, plus insecure, island, unsupported-algorithm and unsigned variants) served by the real authoritative code; the real validator resolves names while a seeded adversary forges / strips / substitutes DS, DNSKEY, NS and answer records at a chosen upstream exchange; oracle: Secure only for data whose chain to the configured anchor is genuine, Insecure only where a genuine DS-absence proof exists, genuine data never downgraded or rejected without a fault.",
+   "Seeded three-level signed hierarchies (root -> tld -> leaf, plus insecure, island, unsupported-algorithm and unsigned variants) served by the real authoritative code; the real validator resolves existing and non-existent names while a seeded adversary forges / strips / substitutes DS, DNSKEY, NS and answer records at a chosen upstream exchange, or injects data signed by the key of a validly chained sibling zone; oracle: Secure only for data whose chain to the configured anchor is genuine, Insecure only where a genuine DS-absence proof exists, genuine data never downgraded or rejected without a fault.",
    "Adversary is on-path but cannot sign; zones are small; one fault site per run (plus compounds); opt-out downgrade of non-existent names is allowed as RFC 5155 permits.",
    "deterministic simulation: upstream router seam (DnsHandle) with seeded per-exchange tamper faults, real server + real validator, chain-of-trust truth oracle", "4 (C07)"),
  "C08": ("exploration",
-   "Seeded NSEC-signed zones over a small label universe (wildcards, empty non-terminals, CNAME owners, insecure delegation) served by the real authoritative code; the victim response is rewritten using only genuine signed material of the same zone (rcode flips, denial subsets, replayed expansions, predecessor proofs); oracle: independent RFC 1034/4592 zone-truth evaluator - a Secure verdict must match the truth (soundness), the server's untouched proof must be accepted (completeness).",
+   "Seeded NSEC-signed zones over a small label universe (wildcards, empty non-terminals, CNAME owners, insecure delegation) served by the real authoritative code; the victim response is rewritten using only genuine signed material of the same zone (rcode flips, denial subsets, replayed expansions, predecessor proofs, a wildcard's NSEC relabelled to the query name, a forged unsigned apex NSEC); oracle: independent RFC 1034/4592 zone-truth evaluator - a Secure verdict must match the truth (soundness), the server's untouched proof must be accepted (completeness).",
    "Label universe {a,b,*} depth <= 3; one zone; the attacker cannot sign; known defects are keyed by (claim, truth class) shape.",
    "deterministic simulation: response-rewrite fault plans from harvested genuine records, real server + real validator, zone-truth oracle", "4 (C08)"),
  "C09": ("exploration",
-   "Same rig as C08 on NSEC3-signed zones (salt 0-2 bytes, iterations {0..600} against the validator's soft/hard limits, opt-out, second-chain records); additionally: Secure never above the soft iteration limit, Bogus above the hard limit; false denials are attributed by re-validation without the last-of-chain NSEC3 record.",
+   "Same rig as C08 on NSEC3-signed zones (salt 0-2 bytes, iterations {0..600} against the validator's soft/hard limits, opt-out, second-chain records, NSEC3-typed RRsets signed by a delegated child zone); additionally: Secure never above the soft iteration limit, Bogus above the hard limit; false denials are attributed by re-validation without the last-of-chain NSEC3 record.",
    "As C08; hash-order coincidences are sampled, not enumerated.",
    "deterministic simulation: response-rewrite fault plans from harvested genuine NSEC3 records, real server + real validator, zone-truth oracle", "4 (C09)"),
  "C13": ("exploration",
-   "Seeded TSIG-signed request sequences (server side: real Request parser -> Catalog TSIG verification; client side: real UdpClientStream / DnsMultiplexer with a signer and reply verification) with the simulated clock skewed/jumped and messages tampered at byte level (MAC truncation, time, fudge, key name, algorithm, trailing bytes, id/header rewrite, replayed replies); oracle: an independent RFC 8945 verifier built on ring HMAC decides accept/reject and the error code for each message.",
+   "Seeded TSIG-signed request sequences (server side: real Request parser -> Catalog TSIG verification; client side: real UdpClientStream / DnsMultiplexer with a signer and reply verification) with the simulated clock skewed/jumped and messages tampered at byte level (MAC truncation, time, fudge, key name, algorithm, trailing bytes, id/header rewrite, replayed replies); third part: the transfer policy across restarts through the real try_from_config on the same journal; oracle: an independent RFC 8945 verifier built on ring HMAC decides accept/reject and the error code for each message.",
    "HMAC-SHA256/384/512 only; multi-message (AXFR) TSIG chains not covered; reference verifier shares hickory's Name type only.",
    "deterministic simulation: interposed clock with skew, byte-level tamper plans on signed messages, independent RFC 8945 reference verifier", "4 (C13)"),
  "C15": ("exploration",
@@ -62,14 +62,14 @@ CLAIMED.update({
    "Single-task histories (the cache is synchronous); eviction by capacity is treated as an allowed miss.",
    "deterministic simulation: interposed monotonic clock with jumps, seeded operation histories against an executable reference cache", "4 (C15)"),
  "C18": ("exploration",
-   "Seeded pools of 1-4 simulated name servers (UDP and TCP behind the RuntimeProvider seam) with per-server behaviour plans (silence, SERVFAIL/REFUSED, truncation, slow answers, connection refusal/reset, wrong-id noise) driving the real NameServerPool / NameServer / connection code with concurrent identical and distinct lookups; oracles: a healthy reachable server means an answer within the deadline, every lookup ends by timeout*attempts in simulated time, answers carry the marker of the server that produced them, no query after the deadline.",
+   "Seeded pools of 1-4 simulated name servers (UDP and TCP behind the RuntimeProvider seam) with per-server behaviour plans (silence, SERVFAIL/REFUSED, truncation, slow answers, connection refusal/reset, servers that close idle connections, a caller that gives up, bursts beyond the per-connection request limit, a spaced second round) driving the real NameServerPool / NameServer / connection code with concurrent identical and distinct lookups; oracles: a healthy reachable server means an answer within the deadline, every lookup ends by timeout*attempts in simulated time, answers carry the marker of the server that produced them, no query after the deadline.",
    "Plain UDP/TCP only (no TLS/QUIC/H2); server statistics ordering is observed, not asserted.",
    "deterministic simulation: simulated network with seeded loss/delay/refusal/truncation faults, discrete-event clock for deadlines, marker-based history oracle", "4 (C18)"),
 })
 
 CLAIMED.update({
  "C19": ("exploration",
-   "Seeded small internets (root + up to 3 levels, 1-2 NS per zone on 2-6 scripted authoritative servers, NS host names in / above / beside the zone, glue present / absent / dead, lame and faulty servers, CNAME chains and loops across zones) resolved by the real Recursor down to the simulated sockets; hostile servers append records whose owner lies outside every zone they were ever delegated (each injection has its own marker address and its own trigger class); oracles over the recorded history: no injected record is returned, contacted as a name server or resurfaces after all servers turned honest; denied server / answer addresses never contacted / returned; every resolution ends within the step budget and a query cap; plain worlds resolve to the truth.",
+   "Seeded small internets (root + up to 3 levels, 1-2 NS per zone on 2-6 scripted authoritative servers, NS host names in / above / beside the zone, glue present / absent / dead, lame, silent and UDP-truncating servers, record TTLs 0-300 with pauses between questions, 0x20, CNAME chains and loops across zones) resolved by the real Recursor down to the simulated sockets; hostile servers append records whose owner lies outside every zone they were ever delegated (each injection has its own marker address and its own trigger class); oracles over the recorded history: no injected record is returned, contacted as a name server or resurfaces after all servers turned honest; denied server / answer addresses never contacted / returned; every resolution ends within the step budget and a query cap; plain worlds resolve to the truth.",
    "Authoritative servers are a scripted stub (RFC 1034 4.3.2 subset); a hostile server lies only outside its bailiwick; non-validating recursor only. Second part `alias`: the real stub Resolver (CachingClient alias chasing) against an upstream serving alias chains of 0-13 hops, loops, 1-3 hops per response, concurrent identical lookups and cache sizes: bounded upstream queries, termination, right answer for short chains.",
    "deterministic simulation: generated internet on the simulated network, seeded hostile-record injection / lame / silent / dead-glue faults, marker-based history oracle, discrete-event clock for timeouts", "4 (C19)"),
  "C11": ("exploration",
